@@ -241,6 +241,8 @@ class Contract:
                     if not hasattr(self, "cuts"):
                         self.cuts = {}
                     self.cuts.setdefault(c.args[0].value, []).append(c.args[1])
+                elif f == "pointwise_yield":
+                    self.pointwise_yield = True
                 elif f == "exact_filters":
                     self.exact_filters = True
                 elif f == "merge_paths":
@@ -1249,6 +1251,7 @@ class Verifier(Engine):
         self.merge_paths = bool(getattr(c, "merge_paths", False))
         self.cuts = dict(getattr(c, "cuts", {}))
         self.exact_filters = bool(getattr(c, "exact_filters", False))
+        self.pointwise_yield = bool(getattr(c, "pointwise_yield", False))
         for dotted in getattr(c, "abstract_regex", []):
             self.abstract_patterns.add(resolve_dotted(dotted).pattern)
         self.var_kinds = dict(c.local_kinds)
